@@ -11,6 +11,13 @@ Import ListNotations.
 Theorem c03_fuse_keeps_ops : forall c,
     stateless_ops (fuse c) = stateless_ops c /\ other_nodes (fuse c) = other_nodes c.
 Proof. exact fuse_keeps_ops. Qed.
+(* ... and no operator crosses a barrier, source or marker: the blocks of operators between
+   consecutive non-Stateless nodes are unchanged *)
+Theorem c03_fuse_keeps_segments : forall c, segments (fuse c) = segments c.
+Proof. exact fuse_keeps_segments. Qed.
+Theorem c03_reorder_keeps_segments : forall c,
+    Forall2 (fun a b => Permutation a b) (segments c) (segments (reorder c)).
+Proof. exact reorder_keeps_segments. Qed.
 Theorem c03_fuse_sound_seq : forall sh term c, exec_seq sh term (fuse c) = exec_seq sh term c.
 Proof. exact fuse_sound_seq. Qed.
 Theorem c03_fuse_sound_par : forall sh term c parts,
